@@ -1304,6 +1304,11 @@ Error CodeHolder::relocate_to_base(uint64_t base_address, RelocationSummary* sum
     }
   }
 
+  // The address table entries written above are part of the code regardless of where the table is placed.
+  if (address_table_section) {
+    address_table_section->_buffer._size = size_t(address_table_entry_size) * address_size;
+  }
+
   // Fixup the virtual size of the address table if it's the last section.
   if (_sections_by_order.last() == address_table_section) {
     ASMJIT_ASSERT(address_table_section != nullptr);
